@@ -6,6 +6,21 @@
 
 package router
 
+// ---------------------------------------------------------------- C07 routing configuration is immutable after construction
+// The router, its rules and their shards are shared by every session of a namespace without a lock. Outside the
+// constructors listed after `after`, no function of the scanned packages may store to a field of these types, to a
+// map or slice loaded from such a field, or let the address of such a field escape into a call (one obligation per
+// store site, decided by the frame checker on the SSA).
+//@ immutable C07: Router, BaseRule, LinkedRule, HashShard, ModShard, NumRangeShard, DateYearShard, DateMonthShard, DateDayShard,
+//@   DefaultShard, GlobalTableShard, MycatPartitionModShard, MycatPartitionLongShard, MycatPartitionStringShard,
+//@   MycatPartitionMurmurHashShard, MycatPartitionPaddingModShard
+//@   after NewRouter, parseRule, createLinkedRule, NewDefaultRule, NewGlobalTableShard, NewMycatPartitionModShard,
+//@   NewMycatPartitionLongShard, NewMycatPartitionStringShard, NewMycatPartitionMurmurHashShard, (*MycatPartitionLongShard).Init,
+//@   (*MycatPartitionStringShard).Init, (*MycatPartitionMurmurHashShard).Init, (*MycatPartitionPaddingModShard).Init,
+//@   (*MycatPartitionMurmurHashShard).generateBucketMap, newMycatPartitionPaddingModShard, NewMycatPartitionPaddingModShard,
+//@   (*MycatPartitionMurmurHashShard).SetWeightMapFromFile
+//@   in proxy/router, proxy/plan, proxy/server
+
 // ---------------------------------------------------------------- trusted standard library / helpers
 // strconv.ParseInt(s, 10, 64) and strconv.Atoi(s): uninterpreted parse predicate and value.
 //@ pure parseIntOK(s string) bool
